@@ -14,6 +14,7 @@
 mod faults;
 mod hiers;
 mod oracle;
+mod recursor;
 mod server;
 
 use std::collections::{BTreeMap, BTreeSet, HashMap};
@@ -162,7 +163,17 @@ fn exec(t: &Target, faults: &[Fault], rt: &tokio::runtime::Runtime, l: &mut Loca
         // clauses that name the decisive observable themselves (panic location, an RRSIG whose
         // signer has no authority over the owner, an unauthenticated NSEC next to a Secure record
         // of the same owner) need no fault scene
-        let key = if f.clause.starts_with("panic:") || f.clause.contains("signer-not-enclosing-owner") || f.clause.contains("unauthenticated-nsec-beside-secure-record-of-same-owner") { f.clause.clone() } else { format!("{}|{}", f.clause, scene(t, faults)) };
+        let sc = {
+            let qk = key_of(&t.q.0, t.q.1);
+            let payload = |x: &Fault| matches!(x, Fault::Resp { mv: Move::ForgeUnsigned | Move::ForgeSignedBy(_) | Move::ReplayWildcard { .. } | Move::Reorder { .. } | Move::StripAnswer | Move::StripAuthority | Move::StripBoth, .. });
+            match faults {
+                // general L2 x L2 pair: the move at the validator's own query only has to produce
+                // the claimed (positive / negative) shape, the decisive move is the other one
+                [a, b] if *a.q() == qk && *b.q() != qk && !payload(a) => format!("{} + other-move@query", scene(t, std::slice::from_ref(b))),
+                _ => scene(t, faults),
+            }
+        };
+        let key = if f.clause.starts_with("panic:") || f.clause.contains("signer-not-enclosing-owner") { f.clause.clone() } else { format!("{}|{}", f.clause, sc) };
         clauses.push(key.clone());
         if !l.has_violation_key(&key) {
             // determinism: a violating case must reproduce
@@ -200,6 +211,16 @@ fn load_honest(t: &Target, k: &Key, rt: &tokio::runtime::Runtime) -> Message {
 fn main() {
     // a stack overflow / abort in the code under test must become a verdict, not a dead check
     vcore::supervise("C07");
+    if std::env::var("C07_REC_DEBUG").is_ok() {
+        let rt = vsim::rt();
+        let hier = Arc::new(hiers::build("recursor"));
+        for q in hier.queries.clone() {
+            let run = recursor::run_recursor_case(&hier, &q, &[], true, &rt);
+            eprintln!("== {} {} -> {:?}", q.0, q.1, format!("{:?}", run.outcome).chars().take(900).collect::<String>());
+            eprintln!("   log: {:?}", run.log);
+        }
+        std::process::exit(0);
+    }
     let ctx = Ctx::from_args("C07", "fault_enumeration");
     let thorough = !ctx.quick();
     let rt = vsim::rt();
@@ -212,6 +233,18 @@ fn main() {
         let mut t = Target { hier, q, honest_answer: Message::query(), positions: vec![], singles: vec![] };
         let _ = honest;
         t.honest_answer = load_honest(&t, &key_of(&t.q.0, t.q.1), &rt);
+        if case["recursor"].as_bool() == Some(true) {
+            let run = recursor::run_recursor_case(&t.hier, &t.q, &faults, case["client_do"].as_bool().unwrap_or(true), &rt);
+            let j = judge(&t.hier, &t.q, &t.honest_answer, &run.outcome);
+            eprintln!("replayed recursor case: {} {:?}", j.class, format!("{:?}", run.outcome).chars().take(400).collect::<String>());
+            ctx.with_local(|l| {
+                for x in &j.findings {
+                    let key = if x.clause.starts_with("panic:") { format!("{}|recursor", x.clause) } else { format!("{}|recursor:{}", x.clause, scene(&t, &faults)) };
+                    l.violation(&key, &x.what, || case.clone());
+                }
+            });
+            ctx.finish(false);
+        }
         if case["server"].as_bool() == Some(true) {
             let c = server::Client { cd: case["client"]["cd"].as_bool().unwrap_or(false), dnssec_ok: case["client"]["do"].as_bool().unwrap_or(true), ad: case["client"]["ad"].as_bool().unwrap_or(false) };
             let out = server::run_server_case(&t.hier, &t.q, &faults, c, &rt);
@@ -251,7 +284,7 @@ fn main() {
          rcode := 0/2/3, genuine SOA + forged unsigned apex NSEC, replace-by-denial(R) for R in {SOA,NS,A,NSEC,NSEC3,DS,DNSKEY} x owner \
          {qname, zone apex, parent apex, name in an insecure zone, name in a secure sibling} x {unsigned, genuine, attacker-signed}. All \
          singles; pairs = (forge/replay/strip move at the validator's query) x (every L2 move [thorough: and every L1 fault] at every other \
-         position) [quick: for the positive-A, DS and DNSKEY queries]. Server clause: Catalog + validating ForwardZoneHandler (real \
+         position) [quick: for the positive-A query of every hierarchy and the DS / DNSKEY queries of two hierarchies; quick also asks only the positive, NXDOMAIN, DS, DNSKEY and neighbouring-zone queries in seven of the eleven hierarchies]. Server clause: Catalog + validating ForwardZoneHandler (real \
          Resolver) over the same upstream, honest + every single fault x client CD/DO/AD variants. Oracle: ground truth in the published \
          zones (oracle.rs, server.rs). distinct_nontrivial = distinct (hierarchy, query, fault script) executed on the validator.",
     );
@@ -279,7 +312,14 @@ fn main() {
     for name in all_names.iter().map(|s| s.as_str()) {
         let hier = Arc::new(hiers::build(name));
         hier_names.push(name.to_string());
-        for q in hier.queries.clone() {
+        for (qi, q) in hier.queries.clone().into_iter().enumerate() {
+            // quick tier: the four-level hierarchy with the positive, NXDOMAIN, DS and DNSKEY queries
+            // quick tier: the full query list for four hierarchies (and the ds-mix ones); positive,
+            // NXDOMAIN, DS, DNSKEY and the neighbouring-zone queries for the others
+            let full = ["all-signed", "signed-next-to-insecure", "apex-wildcards", "leaf-unsigned-nsec"].contains(&name) || name.starts_with("ds-mix:");
+            if !thorough && !full && ![0usize, 2, 5, 6].contains(&qi) && qi < 8 {
+                continue;
+            }
             let honest = run_case(&hier, &q, &[], &rt);
             let mut t = Target { hier: hier.clone(), q: q.clone(), honest_answer: Message::query(), positions: vec![], singles: vec![] };
             t.honest_answer = load_honest(&t, &key_of(&q.0, q.1), &rt);
@@ -289,6 +329,12 @@ fn main() {
             let want = want_class(st, positive);
             if !(j.class == want || (st == Status::Bogus && j.class == "error")) || !j.findings.is_empty() {
                 ctx.machinery_failure(&format!("honest run of {} {} {} is {} (findings {:?}), published status demands {}", name, q.0, q.1, j.class, j.findings, want));
+                // an honest hierarchy judged wrongly in the unsound direction is a violation too
+                ctx.with_local(|l| {
+                    for f in &j.findings {
+                        l.violation(&format!("{}|honest", f.clause), &f.what, || case_json(&t, &[], &honest.outcome));
+                    }
+                });
                 continue;
             }
             ctx.with_local(|l| l.outcome(&format!("honest:{want}")));
@@ -434,15 +480,19 @@ fn main() {
         let ds_mix = t.hier.name.starts_with("ds-mix:");
         // (ds-mix hierarchies: pairs for the positive A query; thorough: for six compositions)
         let ds_mix_pairs = first_of_hier == 0 && (!thorough || ["ds-mix:M", "ds-mix:MA", "ds-mix:MD", "ds-mix:MN", "ds-mix:MNA", "ds-mix:NAD"].contains(&t.hier.name.as_str()));
-        if (ds_mix && !ds_mix_pairs) || (!ds_mix && !thorough && ![0usize, 5, 6].contains(&first_of_hier)) {
+        if (ds_mix && !ds_mix_pairs) || (!ds_mix && !thorough && !(first_of_hier == 0 || ([5usize, 6].contains(&first_of_hier) && ["all-signed", "signed-next-to-insecure"].contains(&t.hier.name.as_str())))) {
             cut_targets += 1;
             continue;
         }
+        // thorough: GENERAL L2 x L2 pairs (any response-level move at the validator's query x any
+        // response-level move elsewhere) for two representative targets
+        let general = thorough
+            && [("all-signed", 0usize), ("signed-next-to-insecure", 2)].contains(&(t.hier.name.as_str(), first_of_hier));
         let firsts: Vec<&Fault> = t
             .singles
             .iter()
             .filter(|f| *f.q() == qk)
-            .filter(|f| matches!(f, Fault::Resp { mv: Move::ForgeUnsigned | Move::ForgeSignedBy(_) | Move::ReplayWildcard { .. } | Move::Reorder { .. } | Move::StripAnswer | Move::StripAuthority | Move::StripBoth, .. }))
+            .filter(|f| (general && matches!(f, Fault::Resp { .. })) || matches!(f, Fault::Resp { mv: Move::ForgeUnsigned | Move::ForgeSignedBy(_) | Move::ReplayWildcard { .. } | Move::Reorder { .. } | Move::StripAnswer | Move::StripAuthority | Move::StripBoth, .. }))
             .collect();
         for a in firsts {
             for b in t.singles.iter().filter(|f| *f.q() != qk) {
@@ -451,6 +501,9 @@ fn main() {
                     Fault::Resp { .. } => true,
                     Fault::Rec { .. } => thorough && !ds_mix,
                 };
+                // the general pairs are L2 x L2: a non-payload first move is not paired with L1 faults
+                let payload = matches!(a, Fault::Resp { mv: Move::ForgeUnsigned | Move::ForgeSignedBy(_) | Move::ReplayWildcard { .. } | Move::Reorder { .. } | Move::StripAnswer | Move::StripAuthority | Move::StripBoth, .. });
+                let ok = ok && (payload || matches!(b, Fault::Resp { .. }));
                 if ok {
                     pairs.push((ti, a.clone(), b.clone()));
                 }
@@ -466,7 +519,7 @@ fn main() {
             targets.len()
         )));
     } else {
-        ctx.set("not_enumerated", json!("thorough tier: pairs are (forge/strip move at the validator's query) x (any single fault elsewhere); general L2xL2 pairs and triples are not enumerated"));
+        ctx.set("not_enumerated", json!("thorough tier: pairs are (forge/strip move at the validator's query) x (any single fault elsewhere); plus GENERAL L2xL2 pairs for two representative targets (all-signed www A, signed-next-to-insecure NXDOMAIN); triples are not enumerated"));
     }
     let tg = &targets;
     let sv = &single_viol;
@@ -517,7 +570,9 @@ fn main() {
         for fi in 0..targets[*ti].singles.len() {
             for ci in 0..server::CLIENTS.len() {
                 // thorough: all six client variants; quick: CD=0/DO=1 and CD=1/DO=1
-                if thorough || ci == 1 || ci == 4 {
+                // thorough: all six client variants; quick: CD=0/DO=1 for every fault, CD=1/DO=1 for the
+                // response-level moves at the client's own query
+                if thorough || ci == 1 || (ci == 4 && matches!(&targets[*ti].singles[fi], Fault::Resp { q, .. } if *q == key_of(&targets[*ti].q.0, targets[*ti].q.1))) {
                     swork.push((*ti, fi, ci));
                 }
             }
@@ -560,6 +615,80 @@ fn main() {
     if nondet.load(std::sync::atomic::Ordering::SeqCst) {
         ctx.machinery_failure("determinism self-test failed: a case gave two different outcomes");
     }
+    // ---- F: the validating RECURSOR over its own hierarchy (in-zone name servers, real referrals
+    // walked from the root): honest runs + every single fault at the positions it asks
+    {
+        let hier = Arc::new(hiers::build("recursor"));
+        let mut rtargets: Vec<Target> = vec![];
+        for q in hier.queries.clone() {
+            let honest = recursor::run_recursor_case(&hier, &q, &[], true, &rt);
+            let mut t = Target { hier: hier.clone(), q: q.clone(), honest_answer: Message::query(), positions: vec![], singles: vec![] };
+            t.honest_answer = load_honest(&t, &key_of(&q.0, q.1), &rt);
+            let j = judge(&hier, &q, &t.honest_answer, &honest.outcome);
+            let st = hier.status(&q.0, q.1);
+            let positive = !t.honest_answer.answers.is_empty();
+            // (the recursor reports negative answers as errors)
+            let mut ok = if positive { j.class == want_class(st, true) } else { j.class == "error" || j.class == want_class(st, false) };
+            // a client that does not set DO gets the same verdicts (only the DNSSEC records are stripped)
+            let mut j = j;
+            let honest_plain = recursor::run_recursor_case(&hier, &q, &[], false, &rt);
+            let jp = judge(&hier, &q, &t.honest_answer, &honest_plain.outcome);
+            ok = ok && (jp.class == j.class || (!positive && jp.class == "error"));
+            j.findings.extend(jp.findings);
+            ctx.with_local(|l| l.outcome(&format!("recursor-honest:{}", j.class)));
+            if !ok || !j.findings.is_empty() {
+                ctx.machinery_failure(&format!("recursor: honest {} {} is {} (findings {:?})", q.0, q.1, j.class, j.findings));
+                ctx.with_local(|l| {
+                    for f in &j.findings {
+                        l.violation(&format!("{}|recursor:honest", f.clause), &f.what, || case_json(&t, &[], &honest.outcome));
+                    }
+                });
+                continue;
+            }
+            let mut seen = BTreeSet::new();
+            let probe = Script::new(hier.clone(), vec![]);
+            for k in honest.log {
+                if seen.insert(k.clone()) {
+                    let m = load_honest(&t, &k, &rt);
+                    let query = Query::new(name_of(&k), RecordType::from(k.1));
+                    t.singles.extend(faults::singles_at(&probe, &query, &m, thorough));
+                    t.positions.push((k, m));
+                }
+            }
+            rtargets.push(t);
+        }
+        let rwork: Vec<(usize, usize, bool)> = rtargets.iter().enumerate().flat_map(|(ti, t)| (0..t.singles.len()).flat_map(move |fi| if thorough { vec![(ti, fi, true), (ti, fi, false)] } else { vec![(ti, fi, true)] })).collect();
+        ctx.set("recursor_cases", json!(rwork.len()));
+        eprintln!("[C07] server cases done, {} recursor cases at {:.1}s", rwork.len(), ctx.elapsed_s());
+        let rtg = &rtargets;
+        ctx.par_run_init(
+            rwork.len() as u64,
+            8,
+            |_| vsim::rt(),
+            |i, l, rt| {
+                let (ti, fi, client_do) = rwork[i as usize];
+                let t = &rtg[ti];
+                let f = &t.singles[fi];
+                if f.uses_ancestor_key() {
+                    return;
+                }
+                let run = recursor::run_recursor_case(&t.hier, &t.q, std::slice::from_ref(f), client_do, rt);
+                l.eval();
+                let j = judge(&t.hier, &t.q, &t.honest_answer, &run.outcome);
+                l.outcome(&format!("recursor:{}", j.class));
+                for x in &j.findings {
+                    let key = if x.clause.starts_with("panic:") { format!("{}|recursor", x.clause) } else { format!("{}|recursor:{}", x.clause, scene(t, std::slice::from_ref(f))) };
+                    l.violation(&key, &x.what, || {
+                        let mut c = case_json(t, std::slice::from_ref(f), &run.outcome);
+                        c["recursor"] = json!(true);
+                        c["client_do"] = json!(client_do);
+                        c
+                    });
+                }
+            },
+        );
+    }
+
     // ---- vacuity: the enumeration must have produced every outcome class
     for c in ["error", "ok:secure", "ok:bogus", "server:servfail", "server:data+AD", "server:data:cd"] {
         if ctx.outcome_count(c) == 0 {
